@@ -440,42 +440,67 @@ def h_task_create(eng):
 
 
 def h_executor(eng):
+    """task.executor(func, *args, **kwargs): func runs exactly once, in an executor job, with those arguments; the caller gets
+    what func returns - whatever object that is, an exception INSTANCE included - and an exception func raises is raised."""
+    from pyvc.interp import ExcVal, EXC
     it = Interpreter(eng)
     w = World(eng)
     EFV = ClassRec("EvalFuncVar")
     kinds = ["plain", "coroutinefunction", "pyscript-function", "not-callable"]
     kindsel = kinds[eng.choose(4, "func")]
+    outcome = ["returns-a-value", "returns-an-exception-object", "raises"][eng.choose(3, "job")] if kindsel == "plain" else "never-called"
+    result = SV(z3.Const("job_result", ObjS))
+    returned_exc = ExcVal(EXC["UserException"], ("the last error, returned as a value",))
+    calls = []
 
-    def add_executor_job(i, partial, *args):
+    def user_func(i, *a, **kw):
+        calls.append((tuple(a), dict(kw), len(w.events("executor_job"))))
+        if outcome == "raises":
+            raise exc("UserException", "job failed")
+        return returned_exc if outcome == "returns-an-exception-object" else result
+
+    def add_executor_job(i, target, *args):
         def th():
-            w.emit("executor_job", partial, args)
-            if eng.choose(2, "job-raises") == 0:
-                raise exc("UserException", "job failed")
-            return SV(z3.Const("job_result", ObjS))
+            w.emit("executor_job", target, args)
+            return i.call(target, list(args), {})     # the executor runs target(*args); its result / exception is the job's
         return Coro(th, "async_add_executor_job")
 
+    def partial(i, f, *a, **kw):
+        return Rec(fields={"__call__": lambda i2, *a2, **kw2: i2.call(f, list(a) + list(a2), {**kw, **kw2})}, name="functools.partial")
+
     hass = Rec(fields={"async_add_executor_job": add_executor_job}, name="hass")
-    func = Rec(cls=EFV if kindsel == "pyscript-function" else None, fields={"__call__": lambda i: None} if kindsel != "not-callable" else {}, name="func")
+    func = Rec(cls=EFV if kindsel == "pyscript-function" else None, fields={"__call__": user_func} if kindsel != "not-callable" else {}, name="func")
     mod = Module(it, T_PY, stubs={"_LOGGER": logger_stub(), "EvalFuncVar": EFV, "EvalFunc": ClassRec("EvalFunc"),
                                  "asyncio": PyModule("asyncio", {"iscoroutinefunction": lambda i, f: kindsel == "coroutinefunction"}),
-                                 "functools": PyModule("functools", {"partial": lambda i, f, **kw: ("partial", f, kw)}),
+                                 "functools": PyModule("functools", {"partial": partial}),
                                  "callable": lambda i, f: kindsel != "not-callable"},
                  class_state={"TrigTime": {"hass": hass}})
     TT = mod.env.vars["TrigTime"]
     U = "C14/TrigTime.user_task_executor"
-    a1 = SV(z3.Const("arg1", ObjS))
-    k, v = run_catching(it, lambda: it.await_(it.call(it.getattr_(TT, "user_task_executor"), [func, a1], {"kw": SV(z3.Const("kw1", ObjS))})))
-    eng.cover(f"{kindsel}:{k}")
+    a1, kw1 = SV(z3.Const("arg1", ObjS)), SV(z3.Const("kw1", ObjS))
+    k, v = run_catching(it, lambda: it.await_(it.call(it.getattr_(TT, "user_task_executor"), [func, a1], {"kw": kw1})))
+    eng.cover(f"{kindsel}:{outcome}:{k}")
     jobs = w.events("executor_job")
     if kindsel != "plain":
         eng.oblige(f"{U}/post.rejects-coroutines-pyscript-functions-and-non-callables",
-                   k == "exc" and v.cls.name == "TypeError" and jobs == [])
+                   k == "exc" and v.cls.name == "TypeError" and jobs == [] and calls == [])
+        return
+    eng.oblige(f"{U}/post.runs-off-loop-once-with-arguments",
+               len(jobs) == 1 and len(calls) == 1 and calls[0][0] == (a1,) and calls[0][1] == {"kw": kw1} and calls[0][2] == 1)
+    if outcome == "raises":
+        ok = k == "exc" and v.cls.name == "UserException"
+    elif outcome == "returns-an-exception-object":
+        ok = k == "ok" and v is returned_exc
     else:
-        raised = any(p == "job-raises=0" for p in eng.path_log)
-        eng.oblige(f"{U}/post.runs-off-loop-once-with-arguments",
-                   len(jobs) == 1 and jobs[0][1][1] is func and list(jobs[0][1][2]) == ["kw"] and jobs[0][2] == (a1,))
-        eng.oblige(f"{U}/post.returns-value-or-raises-its-exception",
-                   (k == "exc" and v.cls.name == "UserException") if raised else (k == "ok" and isinstance(v, SV)))
+        ok = k == "ok" and v is result
+    ob = eng.oblige(f"{U}/post.returns-value-or-raises-its-exception", ok)
+    if ob.status == "refuted":
+        ob.witness = {"signature": f"executor:{outcome}", "outcome": outcome}
+
+
+def replay_executor(wj):
+    from replay.native import run_native
+    return run_native("c14_executor", wj, timeout=120)
 
 
 def harnesses():
@@ -487,7 +512,7 @@ def harnesses():
         Harness("reaper", h_reaper, units=[(F_PY, "Function.init")]),
         Harness("user_task_cancel", h_cancel, units=[(F_PY, "Function.user_task_cancel")]),
         Harness("task.create", h_task_create, units=[(T_PY, "TrigTime.init")]),
-        Harness("task.executor", h_executor, units=[(T_PY, "TrigTime.user_task_executor")]),
+        Harness("task.executor", h_executor, units=[(T_PY, "TrigTime.user_task_executor")], replay=replay_executor),
         mutator_closure_harness("C14", "task-registries", {"our_tasks": {"cls", "Function"}, "task2cb": {"cls", "Function"},
                                                            "task2context": {"cls", "Function"}},
                                 {"Function.run_coro", "Function.store_hass_context", "Function.task_done_callback_ctx",
